@@ -631,6 +631,39 @@ impl Monitor for C16m {
             acc.situation(format!("{name}:fee{}:a_from_owner{}:b_from_owner{}", fee_pool as u8, ev_expect[0].2 as u8, ev_expect[1].2 as u8));
             return;
         }
+        // ---------------- protocol fee collection on fee-bearing mints ----------------
+        if name == "collect_protocol_fees_v2" || name == "collect_protocol_fees" {
+            let pk = obs.ix.key("whirlpool");
+            let (Some(pool), Some(post)) = (obs.pre.data(&pk).and_then(codec::Pool::decode), w.bank.data(&pk).and_then(codec::Pool::decode)) else { return };
+            if plain_pool(&obs.pre, &pool) {
+                return;
+            }
+            acc.count("fee_pool_protocol_fee_collections");
+            if pool.protocol_fee_owed_a > 0 || pool.protocol_fee_owed_b > 0 {
+                acc.count("fee_pool_protocol_fee_collections_nonzero");
+            }
+            let d = |pre: u64, post: u64| post as i128 - pre as i128;
+            for (tok, mint, vault, dest, owed, left) in [
+                ("A", pool.token_mint_a, pool.token_vault_a, obs.ix.key("token_destination_a"), pool.protocol_fee_owed_a, post.protocol_fee_owed_a),
+                ("B", pool.token_mint_b, pool.token_vault_b, obs.ix.key("token_destination_b"), pool.protocol_fee_owed_b, post.protocol_fee_owed_b),
+            ] {
+                if vault == dest {
+                    continue;
+                }
+                // the vault hands out exactly what the pool owed; the token program withholds its fee from that; nothing stays owed
+                let out = -d(bal(&obs.pre, &vault), bal(&w.bank, &vault));
+                let got = d(bal(&obs.pre, &dest), bal(&w.bank, &dest));
+                if out != owed as i128 {
+                    fail(acc, "protocol_fee_vault_payout", format!("token {tok}: the pool owed {owed} but its vault paid {out} (and now records {left} owed)"));
+                } else if out - got != fee_of(&obs.pre, &mint, owed) as i128 {
+                    fail(acc, "withheld_amounts", format!("token {tok}: vault paid {out}, destination got {got}"));
+                }
+                if left != 0 {
+                    fail(acc, "protocol_fee_not_reset", format!("token {tok}: {left} still owed after the collection"));
+                }
+            }
+            return;
+        }
         // ---------------- liquidity ----------------
         let inc = name == "increase_liquidity_v2" || name == "increase_liquidity_by_token_amounts_v2";
         let dec = name == "decrease_liquidity_v2";
@@ -679,6 +712,15 @@ impl Monitor for C16m {
                 if vout - got != fee_of(&obs.pre, &mint, vout as u64) as u128 {
                     fail(acc, "withheld_amounts", format!("token {tok}: vault paid {vout}, owner got {got}"));
                 }
+            }
+        }
+        if name == "increase_liquidity_by_token_amounts_v2" && obs.ix.data.len() >= 25 {
+            // the two amounts of this instruction are maxima on what the owner pays, transfer fee included - each judged with its own mint's fee
+            let mut r2 = Rd::new(&obs.ix.data, 9);
+            let (ma, mb) = (r2.u64(), r2.u64());
+            acc.count("by_amounts_deposits_on_fee_pools");
+            if ua != ub && ((-dua) as i128 > ma as i128 || (-dub) as i128 > mb as i128) {
+                fail(acc, "paid_more_than_maximum", format!("owner paid ({}, {}) above the stated maxima ({ma}, {mb})", -dua, -dub));
             }
         }
         if name == "increase_liquidity_v2" {
@@ -775,6 +817,8 @@ pub fn run(tier: Tier, seed: u64) -> i32 {
     rep.floor("swap_threshold_probes", 200);
     rep.floor("fee_pool_two_hops", 100);
     rep.floor("fee_pool_repositions", 60);
+    rep.floor("fee_pool_protocol_fee_collections_nonzero", 50);
+    rep.floor("by_amounts_deposits_on_fee_pools", 100);
     rep.floor("reposition_events_checked", 100);
     rep.floor("two_hop_threshold_probes", 40);
     rep.finish()
